@@ -2091,6 +2091,41 @@ func ruleProvRaw(c *Ctx, r *Rep) {
 func ruleFillBytes(c *Ctx, r *Rep) {
 	pv := c.newProv()
 	n := 0
+	// a coordinate or scalar of a key is never written with big.Int.Bytes(): that drops leading zero octets, and the
+	// point or key is one octet short once in 256 keys. FillBytes into the curve's width, or the library's Marshal.
+	{
+		k := 0
+		for fn, cis := range c.funcsCalling("(*math/big.Int).Bytes") {
+			for _, ci := range cis {
+				o := strings.Join(pv.Origins(ci.Common().Args[0]), ",")
+				keyPart := false
+				for _, suf := range []string{".X", ".Y", ".D"} {
+					for _, x := range strings.Split(o, ",") {
+						if strings.HasSuffix(x, suf) && (strings.Contains(x, "PublicKey") || strings.Contains(x, "PrivateKey") || strings.Contains(x, "ecdsa")) {
+							keyPart = true
+						}
+					}
+				}
+				if !keyPart {
+					// by type: a field X, Y or D of an ecdsa key
+					if ld, ok := ci.Common().Args[0].(*ssa.UnOp); ok && ld.Op == token.MUL {
+						if fa, ok := ld.X.(*ssa.FieldAddr); ok {
+							owner := ownerName(c, fa.X.Type())
+							name := fieldOfAddr(fa).Name()
+							if (name == "X" || name == "Y" || name == "D") && (strings.Contains(owner, "ecdsa.") || strings.Contains(owner, "elliptic.")) {
+								keyPart = true
+							}
+						}
+					}
+				}
+				if !keyPart {
+					continue
+				}
+				k++
+				r.Check(false, sprintf("fixed-width|%s#%d", c.FuncKey(fn), k), c.Pos(ci.Pos()), "key coordinates and scalars are written at the curve's fixed width (FillBytes, elliptic.Marshal)", "big.Int.Bytes() of "+o)
+			}
+		}
+	}
 	for fn, cis := range c.funcsCalling("(*math/big.Int).FillBytes") {
 		for _, ci := range cis {
 			n++
